@@ -291,7 +291,7 @@ func init() {
 		Explanation: "Decides, for every input and schedule, the structural clause 'on the query result path no error is dropped and every error reaches the caller or the failure bookkeeping': errflow rules over the SSA form of every call site of a result producer, plus dominance rules for the success bookkeeping (cache succeed, NumSuccessfulPartitions) and the scan-continuation rule (a scan never ends by itself with a nil error). Added clauses: no error-returning call on the result path is dropped; on the leader's end of a follower's query stream every receive error (io.EOF included) fails the partition and a message is used as fields/row only after EndOfResults == false.",
 		NotDecided:  []string{"whether deadlines/timeouts fire at the right time", "gRPC transport failures below the stream API", "os.IsNotExist on the data file being served as 'no file yet' (reading note)"},
 		Assumptions: []string{"go/ssa models the control flow of the compiled program", "wrapper functions (fmt.Errorf, golog Errorf, errors.New) return a non-nil error carrying their argument"},
-		Rules:       []func(*Ctx){ruleC13a, ruleC13w, ruleC13b, ruleC13d, ruleC13e, ruleC13f, ruleC13g, ruleC13h},
+		Rules:       []func(*Ctx){ruleC13a, ruleC13w, ruleC13b, ruleC13d, ruleC13e, ruleC13f, ruleC13g, ruleC13h, ruleC13i},
 	})
 }
 
@@ -862,4 +862,32 @@ func ruleC13h(c *Ctx) {
 		c.check(rule, "handler: callback #"+itoa(m)+" runs only for a message that is not the final one", call.Pos(), guarded, "dominated by EndOfResults == false", "a received message is handed on as fields/row without its EndOfResults flag having been tested: the single final message of a query that failed before announcing fields is passed on as nil fields, which queryCluster takes for the partition's successful final result")
 	}
 	c.floor(rule, "callback calls in the registered handler", m, 3)
+}
+
+// ruleC13i: the IN-subqueries run under the very deadline of the outer query.
+func ruleC13i(c *Ctx) {
+	const rule = "C13.i"
+	c.describe(rule, "flow: in planSubQueries' runner the context handed to each sub-query plan's Iterate is the runner's own context parameter — applySubQueryFilters may ignore a sub-query's ErrDeadlineExceeded only because the outer scan re-tests the same deadline on its next row; a sub-query run under a shorter, derived deadline can time out with a partial IN-list while the outer query completes with a nil error")
+	ps := c.need(rule, "z/planner.planSubQueries")
+	if ps == nil {
+		return
+	}
+	n := 0
+	for _, f := range withAnon(ps) {
+		for _, call := range calls(f) {
+			if calleeName(call) != "invoke (z/core.FlatRowSource).Iterate" {
+				continue
+			}
+			n++
+			ctxArg := call.Common().Args[0]
+			v := resolveVal(c.P, ctxArg, nil)
+			// the runner is the closure that takes a context.Context parameter
+			ok := false
+			if p, isP := v.(*ssa.Parameter); isP && typeStr(p.Type()) == "context.Context" && isWithin(f, p.Parent()) {
+				ok = true
+			}
+			c.check(rule, "sub-queries run under the caller's context", call.Pos(), ok, "sqPlan.Iterate(ctx, …) with the runner's ctx parameter", "the context given to a sub-query plan is not the runner's own context (derived deadline/cancel): the sub-query can hit a deadline the outer scan never sees, its partial IN-list is used (ErrDeadlineExceeded is tolerated there) and the query returns a truncated result with a nil error")
+		}
+	}
+	c.floor(rule, "sub-query Iterate calls in planSubQueries", n, 1)
 }
